@@ -2,7 +2,7 @@
 import ast
 
 from ..engines.logspace import LogSpace, classify, RAW, NORM, TOTALNORM, LOGLIN, LIN
-from ..srcmodel import AnalysisError, U, header
+from ..srcmodel import kwarg, AnalysisError, U, header
 
 
 def analyse(fi, scalar_names=()):
@@ -100,6 +100,26 @@ def lse_primitive(ctx, rel='src/mbi/factor.py', qual='Factor.logsumexp', rule='l
                 ok = bool(guards)
                 why = ('max-shift `%s` %s sanitised against non-finite values before `%s`: a slice of all -inf gives '
                        '(-inf) - (-inf) = NaN otherwise' % (sname, 'is' if ok else 'is NOT', U(c)[:50]))
+                # the shift must be taken per output slice: over exactly the axes the sum runs over (keepdims), else a slice far
+                # below the global maximum underflows to exp(.) = 0 and its log-sum-exp becomes -inf
+                par = getattr(c, '_parent', None)
+                while par is not None and not (isinstance(par, ast.Call) and U(par.func).split('.')[-1] == 'sum'):
+                    par = getattr(par, '_parent', None) if not isinstance(par, ast.stmt) else None
+                if par is not None and isinstance(shift, ast.Name):
+                    sum_axis = kwarg(par, 'axis', 1)
+                    maxes = [m for st in ast.walk(f.node) if isinstance(st, ast.Assign) and any(U(t) == sname for t in st.targets)
+                             for m in ast.walk(st.value) if isinstance(m, ast.Call) and U(m.func).split('.')[-1] in ('max', 'amax')]
+                    if maxes:
+                        m = maxes[0]
+                        is_np = U(m.func).split('.')[0] in ('np', 'numpy')
+                        max_axis = kwarg(m, 'axis', 1 if is_np else 0)
+                        keep = kwarg(m, 'keepdims', None)
+                        if sum_axis is not None and not (isinstance(sum_axis, ast.Constant) and sum_axis.value is None):
+                            per_slice = max_axis is not None and U(max_axis) == U(sum_axis) and isinstance(keep, ast.Constant) and keep.value is True
+                            ctx.ob(rule, f, m, per_slice,
+                                   'the shift of a reduction over axis=%s must be the maximum over the same axes with keepdims=True (one '
+                                   'shift per output cell); the shift is `%s`: with a single global shift every slice more than ~745 below '
+                                   'the global maximum underflows to -inf' % (U(sum_axis), U(m)), construct='shift axes of the hand-written log-sum-exp')
             ctx.ob(rule, f, c, ok, why)
     if n == 0:
         raise AnalysisError('%s: no log-sum-exp reduction found' % qual)
